@@ -1120,6 +1120,44 @@ class Opt:
         return Opt(p[0], nm, fl)
 
 
+class LibOpt:
+    """Option set of ONE library of a mixed module: any subset of the naming flags (so that
+    -fnames -fptrs together is expressible) plus -string / -nodb.  Duck-types Opt for Case."""
+    NAMING = (("fnames",), ("fptrs",), ("fnames", "fptrs"), (), ("unique-names",), ("true-names",))
+
+    def __init__(self, backend, flags=()):
+        order = ("fnames", "fptrs", "string", "true-names", "unique-names", "nodb")
+        self.backend = backend
+        self.flags = tuple(f for f in order if f in flags)
+        self.naming = "mixed"
+
+    def has(self, f):
+        return f in self.flags
+
+    @property
+    def key(self):
+        return "+".join(self.flags) or "none"
+
+    def argv(self):
+        return ["-" + self.backend] + ["-" + f for f in self.flags]
+
+    def deviations(self):
+        return len(self.flags)
+
+    def rejected(self):
+        return self.has("fnames") and self.has("true-names")
+
+    @staticmethod
+    def all(backend):
+        out = []
+        for nm in LibOpt.NAMING:
+            for st in ((), ("string",)):
+                for nd in ((), ("nodb",)):
+                    out.append(LibOpt(backend, nm + st + nd))
+        out.sort(key=lambda o: (o.deviations(), o.key))
+        return out
+
+
 def lattice(max_dev=None, backends=BACKENDS, bools=BOOLS, naming=NAMING):
     """All option sets (canonical order: fewest deviations first), optionally only those
     within max_dev deviations of the back-end's default."""
